@@ -1180,6 +1180,12 @@ class ClassNode(AstNode, NamespaceMixin):
         self.template_arguments = cxx_template
         for args in cxx_template:
             args.parse_instantiation(namespace=self)
+            if len(args.asts) != len(self.template_parameters):
+                raise RuntimeError(
+                    "cxx_template instantiation '{}' has {} arguments but "
+                    "class '{}' has {} template parameters at line {}"
+                    .format(args.instantiation, len(args.asts), name,
+                            len(self.template_parameters), self.linenumber))
         # Headers required by template arguments.
         self.gen_headers_typedef = {}
 
@@ -1470,8 +1476,19 @@ class FunctionNode(AstNode):
 
             template_parameters = ast
             ast = ast.decl
+            if not self.template_parameters or not self.template_arguments:
+                raise RuntimeError(
+                    "Function template '{}' at line {} must have template "
+                    "parameters and a cxx_template field with an instantiation"
+                    .format(decl, self.linenumber))
             for args in self.template_arguments:
                 args.parse_instantiation(namespace=self)
+                if len(args.asts) != len(self.template_parameters):
+                    raise RuntimeError(
+                        "cxx_template instantiation '{}' has {} arguments but "
+                        "'{}' has {} template parameters at line {}"
+                        .format(args.instantiation, len(args.asts), decl,
+                                len(self.template_parameters), self.linenumber))
 
             # XXX - convert to cxx_template format  { T=['int', 'double'] }
             # XXX - only deals with single template argument  [0]?
@@ -1481,7 +1498,10 @@ class FunctionNode(AstNode):
                 lst.append(arg.asts[0].typemap.name)
             self.cxx_template[argname] = lst
         elif isinstance(ast, declast.Declaration):
-            pass
+            if self.template_arguments:
+                raise RuntimeError(
+                    "cxx_template is given for '{}' at line {} "
+                    "which is not a template".format(decl, self.linenumber))
         else:
             raise RuntimeError("Expected a function declaration")
         if ast.params is None:
